@@ -235,17 +235,21 @@ class C19(Prop):
             return ['raised', type(e).__name__]
 
     def list_file_text(self, idset, ids):
-        """the --load-list file: one id per line; depending on the input also a blank line, CRLF line ends and blanks around an id (ids are
+        """the --load-list file: one id per line; depending on the input also a blank line, CRLF line ends and blanks around an id, and no terminator after the last line (ids are
         stripped by TestProgram; a blank line names the id '' which no generated test has) - none of this may change what is run"""
         lines = sorted(idset)
         style = (len(ids) * 3 + sum(ids)) % 4
+        # half of the files do not end with a line terminator (written with '\n'.join(ids): the same id subset)
+        unterminated = (len(ids) + 2 * sum(ids)) % 2 == 1
         if style == 1:
             lines = [''] + lines + ['']
         if style == 2:
-            return ''.join('  ' + x + ' \r\n' for x in lines)
+            text = ''.join('  ' + x + ' \r\n' for x in lines)
+            return text[:-2] if unterminated and lines else text
         if style == 3:
             lines = lines + ['   ']
-        return ''.join(x + '\n' for x in lines)
+        text = ''.join(x + '\n' for x in lines)
+        return text[:-1] if unterminated and lines else text
 
     def unwrapped_route(self, inp):
         """is the second TestProgram route exercised for this input?  Always when the root is a bare test case or a suite with its
